@@ -15,22 +15,22 @@ TB = ("Trusted base: Lean 4.33.0 kernel; axioms propext, Quot.sound, Classical.c
 
 # id -> (theorem-backed part, correspondence/search-backed part)
 TEXT = {
-    "C01": ("resolution rule of paramSingle.Build proved for every state and outcome: C01_decorator_wins (nearest decorator not on the stack is called, its stored output is delivered, never a provider's value), C01_decorated_cache, C01_cached_value and C01_provided (nearest scope with a cached value or providers, located by findProviders_value/_provs; zero only for optional), C01_nothing, C01_invoked_once (a successful Invoke entered the invoked function exactly once, as the last thing it did); cache justification (cached values are outputs of registered providers) is still correspondence-only",
+    "C01": ("resolution rule of paramSingle.Build proved for every state and outcome: C01_decorator_wins (nearest decorator not on the stack is called, its stored output is delivered, never a provider's value), C01_decorated_cache, C01_cached_value and C01_provided (nearest scope with a cached value or providers, located by findProviders_value/_provs; zero only for optional), C01_nothing, C01_invoked_once (a successful Invoke entered the invoked function exactly once, as the last thing it did); cache justification (cached values are outputs of registered providers) is still correspondence-only; for whole programs (invariants of every API step and of the whole resolver): C01_cached_value_justified (a value cached under key k in scope S is exactly what a successful execution of a built constructor with home scope S returned in the result slot that declares k -- directly, through a result object, a name tag or an As interface) and C01_args_from_successful_executions (every token in any argument of any user function stems from a constructor/decorator execution that had exited successfully earlier in the history, never from the invoked function, a failed or an unfinished execution)",
             "wiring of every argument of every executed function compared with the model on every explored program (projection: verdict class + enter events with provenance tokens), in reflect mode and in generated-source mode (declared Go functions and struct types compiled into the executor)"),
     "C02": ("flag discipline of the whole resolver proved by induction over its mutual recursion (engine_flags): C02_once (per resolver call: at most one successful execution per constructor and per decorator, none for nodes already built or on the stack, and a successful one marks the node built), C02_once_history (whole programs: in the history of any operation sequence every constructor node has at most one successful exit — step invariant HInv, C02_step_invariant), C02_built_stays_built, C02_cached, C02_noreentry, C02_deco_cached, C02_no_nesting (in the events of any Invoke an enter is directly followed by the exit of the same execution)",
             "enter/exit skeleton compared with the model; trace predicate: successful exits per function <= accepted registrations, no nested entry"),
-    "C03": ("C03_passive (Scope/Provide/Decorate/Visualize/String report no event, any state) and C03_invoke_registry (the resolver never changes the registry) are proved for the model",
+    "C03": ("C03_passive (Scope/Provide/Decorate/Visualize/String report no event, any state) and C03_invoke_registry (the resolver never changes the registry) are proved for the model; C03_only at full strength (every function entered during an Invoke is the invoked function or belongs to a constructor/decorator reachable -- inductive predicate Reach on the registry as it was when Invoke was called -- from a parameter of the invoked function: decorators of the key on the path, providers of a single key in the nearest providing scope, providers of a non-soft group on the path, recursively from each node's own scope; engine_only is an induction over the whole resolver) and C03_dependencies_complete_first (whole programs)",
             "execution order and closure (only the needed functions run, dependencies complete first) compared with the model on every explored program; trace predicate pred_c03"),
     "C04": ("C04_required_missing, C04_optional_missing, C04_shallow, C04_shallow_single, C04_ctor_not_run (a constructor with a missing direct dependency is not entered and logs nothing), C04_optional_absorbs_only_missing are proved", "verdict class, missing keys, zero-valued optional arguments compared with the model"),
-    "C05": ("graph half proved at full strength for every graph size: C05_dfs_sound, C05_path, C05_dfs_total, C05_dfs_complete (Dfs.isAcyclic = internal/graph.IsAcyclic); resolver half: C05_resolver_terminates (any registry, cyclic or not: a Call never exhausts a recursion budget of idle*(D+3)+1 because nodes being built are marked and never re-entered — induction on the budget with the balanced-marks relation Flags) and C05_invoke_total (in every program no operation runs out of the budget apiInvoke hands out: the model's out-of-fuel answer is unreachable); the on-stack guard (C20_onstack) turns a run-time cycle into an error",
+    "C05": ("graph half proved at full strength for every graph size: C05_dfs_sound, C05_path, C05_dfs_total, C05_dfs_complete (Dfs.isAcyclic = internal/graph.IsAcyclic); resolver half: C05_resolver_terminates (any registry, cyclic or not: a Call never exhausts a recursion budget of idle*(D+3)+1 because nodes being built are marked and never re-entered \u2014 induction on the budget with the balanced-marks relation Flags) and C05_invoke_total (in every program no operation runs out of the budget apiInvoke hands out: the model's out-of-fuel answer is unreachable); the on-stack guard (C20_onstack) turns a run-time cycle into an error; container level: C05_provide_accepted_views_acyclic (after an accepted eager Provide the graph of the target scope and of every descendant, new constructor included, has no closed walk -- in the final container, GraphSame), C05_provide_cycle_is_real / C05_invoke_cycle_is_real (a cycle error names a real closed walk of an affected scope's graph: no false positive), C05_invoke_runs_only_on_acyclic_view, C05_check_reads_graph_only",
             "K-graph: IsAcyclic via hook vs model, exhaustive on all digraphs with <= 4 nodes + random graphs, each answer also judged on its own; container level: cycle verdicts, cycle lengths, process survival compared with the model under a cycle-heavy generator profile"),
     "C06": ("C06_provide_unchanged proved at full strength: whenever Provide returns an error (any cause, any state, with or without Export, cycle in the target or any descendant) the container equals the one before in every component except the isVerifiedAcyclic flags — proved through the undo actually performed (rollbackProvide: graph holders truncated, node tables truncated, providers of the target restored), with the invariant `Work` over everything the attempt may have done; C06_decorate_unchanged (after a rejected Decorate the container equals the container before: the graph nodes added by the parse are rolled back, parse_rollback_eq), C06_no_execution", "metamorphic twins on the real library: history with / without each rejected Provide/Decorate followed by a probe sweep (every key invoked, re-provided, re-decorated from every scope; self-feeding group constructors whose cycle error exposes the graph node order) must behave identically; full traces compared with the model"),
-    "C07": ("C07_failed_writes_nothing / C07_failed_deco_writes_nothing (a failing execution changes no cache, flag or registry entry), C07_retry_ctor / C07_retry_deco (after a failing call the node is not built, off the stack / ready, hence executed again on the next demand), C07_others_kept are proved; root cause: C13_ctor_outcome / C13_deco_outcome",
+    "C07": ("C07_failed_writes_nothing / C07_failed_deco_writes_nothing (a failing execution changes no cache, flag or registry entry), C07_retry_ctor / C07_retry_deco (after a failing call the node is not built, off the stack / ready, hence executed again on the next demand), C07_others_kept are proved; root cause: C13_ctor_outcome / C13_deco_outcome; for whole programs: C07_failed_never_delivered (if execution x of f ended with an error or a panic, no value stemming from it is ever handed to any user function, in any scope, through single values, groups, decorated values or parameter objects) and C07_failed_never_cached (invariants Prov and ExecInv: executions are numbered uniquely)",
             "trace predicate: no token of a failed execution is ever delivered, root cause of the demanding Invoke is the first failure; traces compared with the model under a fault-heavy profile"),
-    "C08": ("C08_path_only (the provider search answers only with the nearest scope on the path to the root), C08_all_providers_on_path, C08_child_path (a new child's path is the child followed by its parent's path: registrations made in ancestors before or after the child was created are equally visible), C08_tree_wf are proved; Export and graph orders are correspondence-only", "wiring across scope trees (up to 7 scopes, Export) compared with the model"),
+    "C08": ("C08_path_only (the provider search answers only with the nearest scope on the path to the root), C08_all_providers_on_path, C08_child_path (a new child's path is the child followed by its parent's path: registrations made in ancestors before or after the child was created are equally visible), C08_tree_wf are proved; Export and graph orders are correspondence-only; C08_reachable_providers_visible (with C03_only: a constructor that may run directly for a single key is listed in the nearest providing scope on the path to the root; siblings, descendants and shadowed farther ancestors are not reachable)", "wiring across scope trees (up to 7 scopes, Export) compared with the model"),
     "C09": ("C09_keys_distinct, C09_as_only, C09_as_sound (with As a value is registered under the listed, implemented interfaces only, not its concrete type), C09_dup_single (a key already provided in the target scope or repeated within the constructor's results fails validation), C09_groups_free are proved", "wiring + acceptance of registrations compared with the model under a profile rich in names, groups and As"),
     "C10": ("C10_members (an undecorated hard group parameter receives exactly the concatenation of the members committed in the scopes on the path to the root; shape lemma buildGroup_undecorated), C10_feeders_built (when the parameter is delivered every provider of the key on the path has been built: none is skipped), C10_failure_is_group_failure are proved", "multisets received by hard group parameters compared with the model"),
-    "C11": ("C11_silent (building an undecorated soft group changes no state and returns exactly the members already committed on the path), C11_soft_last are proved", "multisets received by soft group parameters and the execution skeleton compared with the model"),
+    "C11": ("C11_silent (building an undecorated soft group changes no state and returns exactly the members already committed on the path), C11_soft_last are proved; C11_reaches_only_decorators and C11_never_triggers (with C03_only: a soft group parameter of an undecorated group makes nothing reachable, so no Invoke ever enters a constructor on its account)", "multisets received by soft group parameters and the execution skeleton compared with the model"),
     "C12": ("C12_consumer, C12_self_skipped, C12_local, C12_once, C12_one (an accepted Decorate only fills keys undecorated in that scope; a rejected one changes graph holders only) are proved; C20_deco_cached",
             "wiring with decorators at several scope levels compared with the model"),
     "C13": ("all classification statements proved for every error value the model can build: C13_root_is_leaf, C13_errorsIs_root, C13_user_identity, C13_dig, C13_panic_root, C13_cycle_iff, C13_wrap_*, C13_ctor_outcome, C13_deco_outcome",
@@ -39,8 +39,8 @@ TEXT = {
             "grammar-based malformed inputs (55% of registrations): verdict classes compared with the model; any panic escaping dig or process failure is a violation with the program as replay; C06 twins extended to Invokes that reject their function"),
     "C15": ("C15_object_build (a parameter object without soft groups is built exactly like the positional list of its fields: same calls, same state, same error point, values in declaration order), C15_interleave_hard, C15_list_build, C15_shallow_flat, C15_dot_flat are proved; the parse-level half and result objects are correspondence-only", "Info structs (the parse made visible) and verdicts compared with the model"),
     "C16": ("verification-timing half proved: C16_defer_never_rejects, C16_eager_step, C16_eager_failure_names_a_check, C16_invoke_checks (an unverified scope is checked by Invoke before anything is built; a cycle rejects without executing anything), C16_flags_only; the permutation half is decided by metamorphic twins on the real library", "metamorphic twins on the real library: permuted registration blocks, scope creation moved earlier, DeferAcyclicVerification on/off against the eager run"),
-    "C17": ("C17_silent / C17_silent_history proved at full strength (no enter/exit event in any history of a DryRun container)",
-            "verdict equality dry vs normal with all-ok functions: metamorphic twin on the real library; traces compared with the model (50% dry programs)"),
+    "C17": ("C17_silent / C17_silent_history proved at full strength (no enter/exit event in any history of a DryRun container); C17_verdicts / C17_verdict_at at full strength for whole programs: for every program whose scripted functions all succeed, the DryRun run and the normal run report, operation by operation, the same verdict (accepted, or the same dig error chain) and the same Info -- a relational simulation of the whole resolver (engine_drysim) on containers with the same core (CoreEq: registry, flags, graph holders, the set of cached keys) lifted through Provide, Decorate, Scope, Invoke and every history",
+            "verdict equality dry vs normal is additionally exercised on the real library by a metamorphic twin; traces compared with the model (50% dry programs)"),
     "C18": ("C18_single_entry, C18_group_entry, C18_object_flat (declaration order), C18_as_expanded, C18_group_result, C18_error_omitted, C18_error_slot, C18_variadic_omitted, C18_rejected_untouched_decorate, C18_info_is_parse_decorate are proved", "Info structs of every Provide/Decorate/Invoke compared with the model (IDs coincide in reflect mode; generated-source mode compares distinct IDs up to an injective renaming)"),
     "C19": ("C19_can, C19_no_error_is_createGraph, C19_uninformative_error, C19_addCtor_appends (one entry per AddCtor, earlier entries kept), C19_first_failure_is_root are proved for the Dot model (createGraph/AddCtor, updateGraph, PruneSuccess in lean/DigModel/Dot.lean)",
             "K-dot: the DOT text of every Visualize (with and without VisualizeError) is parsed by a real DOT-subset parser in the harness (syntax validity, label consistency) and its structure (clusters, result nodes, parameter edges with dashed/solid, group nodes and members, failure colouring, pruning) is compared with the model; in reflect mode all constructor IDs coincide (modelled as such); the generated-source mode (batches of programs rendered as Go source and compiled into the executor) runs the same comparison with distinct constructor IDs, which is what exercises pruning"),
